@@ -391,7 +391,8 @@ impl MetadataBlockData {
     /// assert_eq!(&[0x34, 0x56], sink.as_slice());
     /// ```
     pub fn new_unknown(tag: u8, data: &[u8]) -> Result<Self, VerifyError> {
-        verify_range!("tag", tag, 0..=126)?;
+        // tag 0 is STREAMINFO: a block so tagged is read back as (a second) stream info.
+        verify_range!("tag", tag, 1..=126)?;
         verify_range!("data.len", data.len(), ..(1usize << 24))?;
         Ok(Self::Unknown {
             typetag: tag,
@@ -1625,6 +1626,12 @@ impl FrameHeader {
         offset: FrameOffset,
     ) -> Result<Self, VerifyError> {
         verify_block_size!("block_size", block_size)?;
+        // a header stores `block_size - 1`; zero is not representable.
+        verify_range!("block_size", block_size, 1..)?;
+        if let FrameOffset::StartSample(n) = offset {
+            // the UTF-8-like code of the header holds at most 36 bits.
+            verify_range!("offset", n, ..(1u64 << 36))?;
+        }
         let block_size_spec = BlockSizeSpec::from_size(block_size as u16);
         let sample_size_spec =
             SampleSizeSpec::from_bits(bits_per_sample as u8).ok_or_else(|| {
@@ -1944,6 +1951,7 @@ impl Verbatim {
     /// # }
     /// ```
     pub fn new(samples: &[i32], bits_per_sample: usize) -> Result<Self, VerifyError> {
+        verify_block_size!("samples.len", samples.len())?;
         verify_bps!("bits_per_sample", bits_per_sample)?;
         for v in samples {
             verify_sample_range!("samples", *v, bits_per_sample)?;
